@@ -36,6 +36,8 @@ fn space(b: Expr, k: usize) -> ForestSpace {
         Stmt::Repeat(random(lit(3)), vec![l(0), l(0), p(name("n"))]),
         Stmt::ResetRandom,
         Stmt::Declare("W".into(), r()),
+        // a draw next to bracketed literal sub-expressions (nothing about such an entry is constant)
+        Stmt::Row(vec![p(bin(BinOp::Add, r(), group(bin(BinOp::Shl, lit(1), lit(4))))), p(bin(BinOp::Mul, r(), un(UnOp::Neg, group(lit(2))))), p(bin(BinOp::Sub, group(lit(0)), r()))]),
         // an empty range: an error item; the caller carries on and later draws continue the stream
         Stmt::Row(vec![p(r()), p(random(lit(0))), l(0)]),
     ];
